@@ -48,7 +48,11 @@ def layerComps (l : ℕ) : List TComp :=
 def treeComps (L : ℕ) : List TComp := (List.range L).flatMap layerComps
 
 /-- the Rx beam splitter block `[[c, s], [s, c]]` (`c = cos θ/2`, `s = i sin θ/2`) -/
-def bsBlock (c s : R) : Matrix (Fin 2) (Fin 2) R := !![c, s; s, c]
+def bsBlock (c s : R) : Matrix (Fin 2) (Fin 2) R := Matrix.of fun a b => if a = b then c else s
+
+theorem bsBlock_eq (c s : R) : bsBlock c s = !![c, s; s, c] := by
+  ext a b
+  fin_cases a <;> fin_cases b <;> rfl
 
 /-- the `N × N` matrix of a placed component: its block on the identity -/
 def compMat (N : ℕ) (c s : R) : TComp → Matrix (Fin N) (Fin N) R
